@@ -113,7 +113,6 @@ frame parser.parser.errored writers newParser newParser$1 [C07]
 
 // the module's Faulty flag is the parser's errored flag at the very end of parsing
 func (*parser).parse [C07]
-  requires p != nil && p.module != nil && p.module.Ast != nil
   ensures result == p.module && result.Ast.Faulty == p.errored
 
 // reporting: the first error of a statement is delivered and enters panic mode; follow-ups are suppressed
@@ -127,4 +126,27 @@ func (*parser).warn [C07]
   requires p != nil && p.module != nil
   ensures $deliveredErr == old($deliveredErr)
   ensures p.panicMode == old(p.panicMode)
+
+// diagnostics of the scanner must count as failure as well: the handler handed to the scanner
+// has to be one that raises a flag which ends up in Ast.Faulty (tag raisesFaulty)
+// TRUSTED frame of the parser constructor: it allocates the parser and filters comments out of the token slice in place
+func newParser
+  trusted
+  freshresult
+  modifies []token.Token
+  ensures result != nil
+
+func validateOptions
+  trusted
+  modifies parser.Options
+
+func Parse [C07]
+  callsite Scan requires tagged(arg0.ErrorHandler, raisesFaulty)
+  ensures err == nil && scanErrored ==> module.Ast.Faulty
+
+// the handler handed to the scanner: raises scanErrored for error-level diagnostics and forwards every diagnostic
+func Parse$1 [C07]
+  tag raisesFaulty
+  ensures err.Level == ddperror.LEVEL_ERROR ==> scanErrored
+  ensures $deliveredErr == (old($deliveredErr) || err.Level == ddperror.LEVEL_ERROR)
 @*/
